@@ -551,6 +551,68 @@ def run(chk):
             if m is not None and diff_ is not False:
                 chk.violation('impl-vs-spec', desc | {'changed copy': ascii(ref_text(m))[:300]}, {'deep-equal of different elements': diff_})
             chk.nontrivial.add('de' + lib + ref_text(t))
+    # ---------------- 3d. the XML character data model (C17/XmlText.v): (i) the text and attribute value written by fn:serialize
+    # = esc_text / esc_attr of the model (xml.etree: raw CR, &#09;; lxml: &#13;, &#9;); (ii) the model reader = the parser behind
+    # fn:parse-xml on texts with literal characters, entity and character references (valid and invalid)
+    proved_x = chk.prove(['theories/C17/XmlText.v', 'theories/C17/XmlTextProofs.v'], 'theories/C17/XmlTextProperties.v')
+    ALPH = [0x26, 0x3c, 0x3e, 0x22, 0x27, 9, 10, 13, 0x20, 0x61, 0x31, 0xe9, 0x1f600, 0x85, 0x2028, 0x3b, 0x23, 0x5d]
+    strs = [[rng.choice(ALPH) for _ in range(rng.randint(0, 6))] for _ in range(80 if quick else 3000)]
+    strs += [[13, 10], [13], [0x5d, 0x5d, 0x3e], [0x26, 0x23, 0x31, 0x33, 0x3b], [9, 10, 13, 0x20]]
+    for lib, mod, cr_ref, pad in (('et', ET, 'false', 'true'), ('lxml', LE, 'true', 'false')):
+        mo = core.run_coq_cases('C17', IMPORTS, [f'run_xml_esc {cr_ref} {pad} {core.zlist(x)}' for x in strs], chunk=200, tag='xesc' + lib) if model_ok else [None] * len(strs)
+        for x, m in zip(strs, mo):
+            chk.evaluations += 1
+            chk.count('xml-escape:' + lib)
+            if m is None:
+                continue
+            text = ''.join(map(chr, x))
+            elem = mod.Element('a')
+            elem.set('x', text)
+            elem.text = text
+            desc = {'lib': lib, 'string (code points)': x}
+            try:
+                out = select(elem, 'serialize(.)', parser=XPath31Parser)
+                out = out[0] if isinstance(out, list) else out
+            except ElementPathError as ex:
+                chk.violation('impl-vs-model', desc, 'raised ' + str(ex)[:200])
+                continue
+            want_t, want_a = ''.join(map(chr, m[0])), ''.join(map(chr, m[1]))
+            if not x:
+                continue
+            got_a = out[out.index('x="') + 3:out.index('"', out.index('x="') + 3)]
+            got_t = out[out.index('>') + 1:out.rindex('</a>')]
+            if (got_t, got_a) != (want_t, want_a):
+                chk.corr_fail.append((desc, (got_t, got_a), (want_t, want_a)))
+                chk.violation('impl-vs-model', desc, {'serialize': ascii(out)[:300], 'model text': ascii(want_t), 'model attribute': ascii(want_a)})
+            chk.nontrivial.add('xesc' + lib + repr(x))
+    # (ii) the reader
+    REFS = ['&amp;', '&lt;', '&gt;', '&quot;', '&apos;', '&#13;', '&#10;', '&#9;', '&#09;', '&#x41;', '&#x1F600;', '&#xD;', '&#0;', '&#x0;', '&#1;', '&#xFFFE;',
+            '&#55296;', '&#1114112;', '&#;', '&#x;', '&amp', '&foo;', '&', '&#12a;', '&#xg;', '&#65;', '&#x10FFFF;', '&#32;']
+    LITS = ['a', '1', ' ', '\t', '\n', '\r', '\r\n', 'é', '\U0001F600', '>', "'", ';', '#', ']]', '\x85', '\u2028']
+    texts = []
+    for _ in range(150 if quick else 5000):
+        texts.append(''.join(rng.choice(REFS if rng.random() < 0.4 else LITS) for _ in range(rng.randint(0, 5))))
+    texts += ['<', 'a<b', '"', 'a"b', ']]>', '\r\n\r', '&#x26;#13;', '&amp;#13;']
+    mo = core.run_coq_cases('C17', IMPORTS, [f'run_xml_read {core.zlist([ord(c) for c in x])}' for x in texts], chunk=200, tag='xread') if model_ok else [None] * len(texts)
+    for x, m in zip(texts, mo):
+        if m is None:
+            continue
+        for what, k, doc, expr in (('text', 0, f'<a>{x}</a>', 'string(parse-xml($d)/a)'), ('attribute', 1, f'<a x="{x}"/>', 'string(parse-xml($d)/a/@x)')):
+            if what == 'text' and ']]>' in x:
+                continue    # not allowed literally in content (the serializers never write it: > is escaped)
+            chk.evaluations += 1
+            chk.count('xml-read:' + what)
+            desc = {'document': ascii(doc)}
+            try:
+                got = select(ET.XML('<r/>'), expr, variables={'d': doc}, parser=XPath31Parser)
+                got = [1] + [ord(c) for c in got]
+            except ElementPathError as ex:
+                got = [0]
+            want = list(m[k])
+            if got != want:
+                chk.corr_fail.append((desc, got, want))
+                chk.violation('impl-vs-model', desc, {'parse-xml reads (1 :: code points, or 0 = not well formed)': got, 'model reader': want})
+            chk.nontrivial.add('xread' + what + x)
     chk.rule = ('fixed + seeded random JSON values (depth <= 3; strings over quotes, backslash, slash, control, non-ASCII, astral and boundary code '
                 'points; integers to 10^20; doubles needing 17 digits, tiny and huge) through fn:serialize -> Coq parser, Coq printer (plain and '
                 're-spaced) -> fn:parse-json, parse-json(serialize(v)); XML-safe values through xml-to-json(json-to-xml(t)) -> Coq parser; all '
